@@ -3,7 +3,7 @@
 suite and the expected quick checks against it; write sensitivity/results.json. Usage: run.py [name-substring] [--tier quick|thorough]"""
 import json, os, shutil, subprocess, sys, tempfile, glob
 sys.path.insert(0, os.path.dirname(os.path.abspath(__file__)))
-from catalogue import CATALOGUE
+from catalogue import CATALOGUE, NEUTRAL, ALL
 ENV = dict(os.environ, GOFLAGS="-mod=mod", GOPROXY="off", GOSUMDB="off", GOTOOLCHAIN="local")
 VERIF = os.path.dirname(os.path.dirname(os.path.abspath(__file__)))
 
@@ -56,7 +56,38 @@ def main():
         r = evaluate("own/" + e["name"], e["props"], apply, tier)
         print(json.dumps(r)); sys.stdout.flush()
         results.append(r)
+    for e in NEUTRAL:
+        if flt and flt not in e["name"] and flt != "neutral":
+            continue
+        def apply(d, e=e):
+            for f, old, new in e["edits"]:
+                p = os.path.join(d, f); s = open(p).read()
+                if s.count(old) != 1:
+                    return "edit does not apply to %s (%d matches)" % (f, s.count(old))
+                open(p, "w").write(s.replace(old, new))
+            rc, out = sh("gofmt -w .", cwd=d)
+            return None
+        r = evaluate("neutral/" + e["name"], ALL, apply, tier)
+        r["expected"] = []
+        r["false_alarms"] = [p for p in ALL if r.get("checks", {}).get(p, {}).get("exit") != 0]
+        print(json.dumps(r)); sys.stdout.flush()
+        results.append(r)
+    for meta in sorted(glob.glob(os.path.join(VERIF, "neutral", "*", "meta.json"))):
+        sid = os.path.basename(os.path.dirname(meta))
+        if flt and flt not in sid and flt != "neutral":
+            continue
+        patch = os.path.join(os.path.dirname(meta), "patch.diff")
+        def apply(d, patch=patch):
+            rc, out = sh("patch -p1 -s < %s" % patch, cwd=d)
+            return None if rc == 0 else "patch does not apply: " + out[:200]
+        r = evaluate("neutral/" + sid, ALL, apply, tier)
+        r["expected"] = []
+        r["false_alarms"] = [p for p in ALL if r.get("checks", {}).get(p, {}).get("exit") != 0]
+        print(json.dumps(r)); sys.stdout.flush()
+        results.append(r)
     for meta in sorted(glob.glob(os.path.join(VERIF, "seeded", "*", "meta.json"))):
+        if flt == "neutral":
+            break
         m = json.load(open(meta)); sid = os.path.basename(os.path.dirname(meta))
         if flt and flt not in sid:
             continue
